@@ -47,6 +47,17 @@ LEN_KINDS = ("len0", "short", "long", "double")
 _PS_STATE = {"empty": lambda n: b"", "trailing": lambda n: bytes([n, 0xFF]), "ok": lambda n: bytes([n]), "wrong": lambda n: b"\x01"}
 
 
+def error_value(name: str) -> bytes:
+    """Bytes of the Error item for the symbolic values of PairVerify.tla: auth = 02, eXX = byte XX, elen0 = empty, e2b = 02 00."""
+    if name == "auth":
+        return b"\x02"
+    if name == "elen0":
+        return b""
+    if name == "e2b":
+        return b"\x02\x00"
+    return bytes([int(name[1:], 16)])
+
+
 def corruptions(nbytes: int, rng, every: bool, sample: int = 8):
     """The expansion of a symbolic Corrupt(site) over a field of nbytes: every single bit and every
     byte position (thorough) or first / last bit, `sample` seeded bits and 3 byte replacements (quick)."""
@@ -231,7 +242,7 @@ class PVWorld:
         if t == "state":
             return T.STATE, {"ok": b"\x02", "wrong": b"\x04", "empty": b"", "trailing": b"\x02\xff"}[r["st"]]
         if t == "error":
-            return T.ERROR, b"\x02"
+            return T.ERROR, error_value(r["err"])
         if t == "method":
             return T.METHOD, (METHOD_RESUME if r["method"] == "resume" else b"\x02")
         if t == "sid":
@@ -264,7 +275,7 @@ class PVWorld:
 
     def canon_types(self, r):
         c = [("state", "own")]
-        if r["err"] == "auth":
+        if r["err"] != "none":
             c.append(("error", "own"))
         if r["method"] != "absent":
             c.append(("method", "own"))
